@@ -311,6 +311,60 @@ void op_incl(const Step& s) {
 	}
 }
 
+// The selections that take a simulation relation.  The library cannot compute one for word automata
+// (ExplicitFiniteAut::ComputeSimulation is not implemented), so the client follows the protocol of
+// cli/operations.hh by hand: sanitise both operands (dense, disjoint numbers), obtain a simulation
+// preorder on the union -- here from the reference model -- and hand it over through InclParam.
+void op_incl_sim(const Step& s) {
+	FAH& a = H(s, 0); FAH& b = H(s, 1); bool congr = s.arg(2) & 1; long variant = mod(s.arg(3), 4);
+	if (too_big(a.model, &b.model) || a.model.states().size() > 30 || b.model.states().size() > 30) throw Skip();
+	static const char* const VAR[] = {"greatest", "identity", "within-operands", "smaller-to-bigger"};
+	const std::string site = std::string("fa_incl:") + (congr ? "congr-depth" : "antichains") + "-sim:" + VAR[variant];
+	EF sa(*a.aut), sb(*b.aut);
+	api_begin(); api_site(site + ":sanitise");
+	StateType n = VATA::AutBase::SanitizeAutsForInclusion(sa, sb);
+	api_end();
+	FA ma, mb; std::string why;
+	if (!read_back(sa, ma, &why) || !read_back(sb, mb, &why)) { violation("C09.result-readable", site, why); return; }
+	for (long q : ma.states()) if (q < 0 || q >= long(n) || mb.states().count(q)) { violation("C09.sanitised-operands", site, "SanitizeAutsForInclusion did not give dense disjoint state numbers\n  smaller: " + mdl::to_lit(ma) + "\n  bigger : " + mdl::to_lit(mb)); return; }
+	for (long q : mb.states()) if (q < 0 || q >= long(n)) { violation("C09.sanitised-operands", site, "SanitizeAutsForInclusion returned a state count below a state number"); return; }
+	FA u = ma; u.edges.insert(mb.edges.begin(), mb.edges.end()); u.finals.insert(mb.finals.begin(), mb.finals.end());
+	std::set<long> dom; for (long q = 0; q < long(n); ++q) dom.insert(q);
+	mdl::Rel rel = mdl::fwd_sim(u, dom);
+	std::set<long> sta = ma.states();
+	VATA::AutBase::StateDiscontBinaryRelation sim(size_t(n), false);
+	for (long q = 0; q < long(n); ++q) sim.set(size_t(q), size_t(q), true);
+	for (auto& pq : rel) {
+		bool pa = sta.count(pq.first) > 0, qa = sta.count(pq.second) > 0, keep = true;
+		if (variant == 1) keep = pq.first == pq.second;
+		else if (variant == 2) keep = pa == qa;                             // a simulation: successors stay inside their operand
+		else if (variant == 3) keep = pq.first == pq.second || (pa && !qa);
+		if (keep) sim.set(size_t(pq.first), size_t(pq.second), true);
+	}
+	VATA::InclParam ip; ip.SetUseSimulation(true); ip.SetSimulation(&sim);
+	if (congr) { ip.SetAlgorithm(VATA::InclParam::e_algorithm::congruences); ip.SetSearchOrder(VATA::InclParam::e_search_order::depth); }
+	else ip.SetAlgorithm(VATA::InclParam::e_algorithm::antichains);
+	int v;
+	api_begin(); api_site(site, BUDGET_HANG, 20000000);
+	try {
+		if (congr) { EF un = EF::UnionDisjointStates(sa, sb); v = EF::CheckInclusion(un, sb, ip) ? 1 : 0; }
+		else v = EF::CheckInclusion(sa, sb, ip) ? 1 : 0;
+	} catch (const VATA::NotImplementedException&) { count(c_notimpl_thrown); v = 2; }
+	api_end(); observe(uint64_t(v));
+	if (armed("C09")) {
+		count(c_oracle_evals);
+		if (v == 2) { violation("C09.implemented-selection", site, "an implemented algorithm selection threw NotImplementedException"); return; }
+		int want = mdl::incl(a.model, b.model);
+		if (want < 0) count(c_model_too_big);
+		else {
+			(want ? count(c_verdict_true) : count(c_verdict_false));
+			if (v != want) violation("C09.verdict", site, std::string("CheckInclusion returned ") + (v ? "true" : "false") + " but the reference says " + (want ? "included" : "not included") + "\n  smaller: " + mdl::to_lit(a.model) + "\n  bigger : " + mdl::to_lit(b.model) + "\n  sanitised smaller: " + mdl::to_lit(ma) + "\n  sanitised bigger : " + mdl::to_lit(mb));
+			note_fa_case(a.model, &b.model, 40 + uint64_t(congr) * 4 + uint64_t(variant));
+		}
+		operands_unchanged(s, a, &b, "C09");
+	}
+}
+
 void op_incl_all(const Step& s) {
 	FAH& a = H(s, 0); FAH& b = H(s, 1); Rng r(uint64_t(s.arg(2)) + 3);
 	if (too_big(a.model, &b.model) || a.model.states().size() > 30 || b.model.states().size() > 30) throw Skip();
@@ -451,6 +505,7 @@ Plan plan_C09(Rng& r, const std::string& tier) {
 				if (r.chance(1, 2)) g.out.push_back(gen::mk(c, "fa_incl_all", {a, b, long(r.below(100000))}));
 				else g.out.push_back(gen::mk(c, "fa_incl", {a, b, long(r.below(3)), long(r.chance(1, 10) ? 2 : r.below(2))}));
 				if (r.chance(1, 6)) g.out.push_back(gen::mk(c, "fa_incl", {b, a, long(r.below(3)), long(r.below(2))}));
+				if (r.chance(1, 3)) g.out.push_back(gen::mk(c, "fa_incl_sim", {a, b, long(r.below(2)), long(r.chance(1, 2) ? 0 : r.below(4))}));      // with a client-supplied simulation preorder
 			}
 		}
 		progs.push_back(g.out);
@@ -525,7 +580,7 @@ void register_fa_ops() {
 	register_op("fa_add", op_add); register_op("fa_final", op_final); register_op("fa_start", op_start);
 	register_op("fa_union", op_union); register_op("fa_union_disj", op_union_disj); register_op("fa_isect", op_isect); register_op("fa_reverse", op_reverse);
 	register_op("fa_unreach", op_unreach); register_op("fa_useless", op_useless); register_op("fa_witness", op_witness);
-	register_op("fa_incl", op_incl); register_op("fa_incl_all", op_incl_all); register_op("fa_dump", op_dump);
+	register_op("fa_incl", op_incl); register_op("fa_incl_all", op_incl_all); register_op("fa_incl_sim", op_incl_sim); register_op("fa_dump", op_dump);
 	register_abort_hook(abort_client); register_final_hook(final_check);
 	register_integrity_hook([](const std::string& oracle, const std::string& site) { check_all(oracle, site, "an unrelated call"); });
 }
